@@ -44,6 +44,18 @@ func (P *Prog) typeID(t types.Type) int {
 	return id
 }
 
+// typeID2 numbers arbitrary keys (sub-reference functions) in the same id space, starting at 1.
+func (P *Prog) typeID2(key string) int {
+	P.mu.Lock()
+	defer P.mu.Unlock()
+	if id, ok := P.typeIDs[key]; ok {
+		return id
+	}
+	id := len(P.typeIDs) + 1
+	P.typeIDs[key] = id
+	return id
+}
+
 func (P *Prog) typeIDByName(name string, pkg *types.Package) (int, bool) {
 	ptr := strings.HasPrefix(name, "*") || strings.HasPrefix(name, "(*")
 	name = strings.Trim(name, "(*)")
@@ -198,7 +210,7 @@ func (P *Prog) genFunction(fn *ssa.Function, con *FuncContract) *Gen {
 			decr: map[*ssa.BasicBlock]string{}, headState: map[*ssa.BasicBlock]State{}, strlits: map[string]string{},
 			closures: map[ssa.Value]*ssa.MakeClosure{}, callNo: map[string]int{}, debug: map[string][]dbgRec{},
 			iterKey: map[*ssa.Range]string{}, usedFns: map[string]bool{}, lastType: map[string]types.Type{},
-			atcallSeen: map[*Clause]bool{}, noContract: map[string]bool{}, heapModule: map[string]bool{}, stableFV: map[*ssa.FreeVar]bool{}, pass1: p1}
+			atcallSeen: map[*Clause]bool{}, noContract: map[string]bool{}, heapModule: map[string]bool{}, stableFV: map[*ssa.FreeVar]bool{}, stableLoc: map[*ssa.Alloc]bool{}, pass1: p1}
 		if con != nil {
 			g.allocBound = con.AllocBound
 		}
